@@ -11,6 +11,8 @@ package main
 
 import (
 	"errors"
+	"regexp"
+	"strings"
 
 	"github.com/zclconf/go-cty/cty"
 	"github.com/zclconf/go-cty/cty/function"
@@ -30,6 +32,7 @@ var c11d11bFuncs = []c11d11bFn{
 	{"reverse", "ReverseListFunc", stdlib.ReverseListFunc},
 	{"coalescelist", "CoalesceListFunc", stdlib.CoalesceListFunc},
 	{"compact", "CompactFunc", stdlib.CompactFunc},
+	{"range", "RangeFunc", stdlib.RangeFunc},
 	{"signum", "SignumFunc", stdlib.SignumFunc},
 	{"ceil", "CeilFunc", stdlib.CeilFunc},
 	{"floor", "FloorFunc", stdlib.FloorFunc},
@@ -142,6 +145,168 @@ func c11D11bCorrespondence(ctx *Ctx) {
 				args = append(args, cty.StringVal("extra"))
 			}
 			c11D11bCase(ctx, e, args)
+		}
+	}
+	c11D11bGlueCorrespondence(ctx)
+}
+
+// ---- the string functions that are cty.StringVal ∘ library (D11b.glueTable) ----------------------
+
+var c11d11bGlue = []c11d11bFn{
+	{"upper", "UpperFunc", stdlib.UpperFunc},
+	{"lower", "LowerFunc", stdlib.LowerFunc},
+	{"strreverse", "ReverseFunc", stdlib.ReverseFunc},
+	{"title", "TitleFunc", stdlib.TitleFunc},
+	{"trimspace", "TrimSpaceFunc", stdlib.TrimSpaceFunc},
+	{"chomp", "ChompFunc", stdlib.ChompFunc},
+	{"trim", "TrimFunc", stdlib.TrimFunc},
+	{"trimprefix", "TrimPrefixFunc", stdlib.TrimPrefixFunc},
+	{"trimsuffix", "TrimSuffixFunc", stdlib.TrimSuffixFunc},
+	{"replace", "ReplaceFunc", stdlib.ReplaceFunc},
+	{"regexreplace", "RegexReplaceFunc", stdlib.RegexReplaceFunc},
+	{"split", "SplitFunc", stdlib.SplitFunc},
+	{"indent", "IndentFunc", stdlib.IndentFunc},
+	{"substr", "SubstrFunc", stdlib.SubstrFunc},
+}
+
+// c11D11bStrs: the arguments as plain strings when ALL of them are known, non-null, unmarked
+// strings at the given positions (then Impl is reached and asks the library about them)
+func c11D11bStrs(args []cty.Value, idx ...int) ([]string, bool) {
+	out := make([]string, len(idx))
+	for k, i := range idx {
+		if i >= len(args) {
+			return nil, false
+		}
+		v, _ := args[i].UnmarkDeep() // the parameters do not allow marks: the protocol hands Impl the unmarked value
+		if !v.IsKnown() || v.IsNull() || v.Type() != cty.String {
+			return nil, false
+		}
+		out[k] = v.AsString()
+	}
+	return out, true
+}
+
+// c11D11bOracle repeats, directly against the libraries, the calls Impl makes on these arguments.
+func c11D11bOracle(model string, args []cty.Value) *oracle {
+	o := newOracle()
+	one := func(lib string, f func(string) string) {
+		if ss, ok := c11D11bStrs(args, 0); ok && len(args) == 1 {
+			r := f(ss[0])
+			o.add(lib, ss, encStr(r))
+			o.nfc(r)
+		}
+	}
+	two := func(lib string, f func(a, b string) string) {
+		if ss, ok := c11D11bStrs(args, 0, 1); ok && len(args) == 2 {
+			r := f(ss[0], ss[1])
+			o.add(lib, ss, encStr(r))
+			o.nfc(r)
+		}
+	}
+	switch model {
+	case "upper":
+		one("toUpper", strings.ToUpper)
+	case "lower":
+		one("toLower", strings.ToLower)
+	case "title":
+		one("title", strings.Title)
+	case "trimspace":
+		one("trimSpace", strings.TrimSpace)
+	case "trim":
+		two("trim", strings.Trim)
+	case "trimprefix":
+		two("trimPrefix", strings.TrimPrefix)
+	case "trimsuffix":
+		two("trimSuffix", strings.TrimSuffix)
+	case "replace":
+		if ss, ok := c11D11bStrs(args, 0, 1, 2); ok && len(args) == 3 {
+			r := strings.Replace(ss[0], ss[1], ss[2], -1)
+			o.add("replaceAll", ss, encStr(r))
+			o.nfc(r)
+		}
+	case "regexreplace":
+		if ss, ok := c11D11bStrs(args, 0, 1, 2); ok && len(args) == 3 {
+			re, err := regexp.Compile(ss[1])
+			if err != nil {
+				o.add("regexCompile", []string{ss[1]}, "err")
+			} else {
+				o.add("regexCompile", []string{ss[1]}, encStrs(re.SubexpNames()[1:]))
+				r := re.ReplaceAllString(ss[0], ss[2])
+				o.add("regexReplaceAll", []string{ss[1], ss[0], ss[2]}, encStr(r))
+				o.nfc(r)
+			}
+		}
+	case "split":
+		if ss, ok := c11D11bStrs(args, 0, 1); ok && len(args) == 2 {
+			parts := strings.Split(ss[1], ss[0])
+			o.add("split", []string{ss[1], ss[0]}, encStrs(parts))
+			for _, p := range parts {
+				o.nfc(p)
+			}
+		}
+	case "chomp":
+		if ss, ok := c11D11bStrs(args, 0); ok {
+			o.nfc(strings.TrimRight(ss[0], "\r\n"))
+		}
+	case "indent":
+		if ss, ok := c11D11bStrs(args, 1); ok && len(args) == 2 {
+			o.nfc(ss[0])
+			n, _ := args[0].UnmarkDeep()
+			if n.IsKnown() && !n.IsNull() && n.Type() == cty.Number {
+				if k, acc := n.AsBigFloat().Int64(); acc == 0 && k >= 0 && k <= 4096 {
+					o.nfc(strings.ReplaceAll(ss[0], "\n", "\n"+strings.Repeat(" ", int(k))))
+				}
+			}
+		}
+	case "strreverse":
+		if ss, ok := c11D11bStrs(args, 0); ok {
+			cs := o.clusters(ss[0])
+			rev := make([]string, len(cs))
+			for j := range cs {
+				rev[len(cs)-1-j] = cs[j]
+			}
+			o.nfc(strings.Join(rev, ""))
+		}
+	case "substr":
+		if ss, ok := c11D11bStrs(args, 0); ok {
+			cs := o.clusters(ss[0])
+			// whatever offset and length select, the result is a contiguous run of clusters
+			if len(cs) <= 16 {
+				for i := 0; i <= len(cs); i++ {
+					for j := i; j <= len(cs); j++ {
+						o.nfc(strings.Join(cs[i:j], ""))
+					}
+				}
+			}
+		}
+	}
+	return o
+}
+
+func c11D11bGlueCorrespondence(ctx *Ctx) {
+	per := ctx.N(400, 6000)
+	for _, e := range c11d11bGlue {
+		ps := e.f.Params()
+		fn := c11Fn{e.goVar, e.f, true}
+		for k := 0; k < per; k++ {
+			inject := k%3 != 0
+			args := make([]cty.Value, len(ps))
+			for i := range args {
+				args[i] = c11GenArg(ctx, e.goVar, i, ps[i], inject)
+			}
+			args = c11ApplyBoundaries(ctx, fn, args, inject)
+			if inject && ctx.R.Intn(40) == 0 && len(args) > 0 {
+				args = args[:len(args)-1]
+			}
+			r := c11D11bInvoke(e.f, args)
+			o := c11D11bOracle(e.model, args)
+			if rv, _ := r.val.UnmarkDeep(); r.class == "ok" && rv.Type() == cty.String && rv.IsKnown() && !rv.IsNull() {
+				// a fact about the real library: the result (and, for the functions that build it from pieces the
+				// library does not see, the string handed to cty.StringVal) is recorded with its NFC form
+				o.nfc(rv.AsString())
+			}
+			ctx.Add("d11b.glue", r.wire(), e.model, c13EncArgs(args), o.wire())
+			ctx.Tag("d11b:" + e.model + ":" + r.class)
 		}
 	}
 }
